@@ -42,6 +42,17 @@ Tie (this file): real `SquareLoss` objects on catalogue models (SIR, SEIR, SIR_n
    by construction of the model (`C20.jtj_entry` / `C20.hessianH_entry` give every entry as a function of those arguments
    alone); a memo keyed on less than (theta, initial state, the ode's other parameters), or a returned internal buffer,
    is exactly what breaks that on the Python side.
+ * ROUND C: `select` cases run the NAMED selections through systematically - observed states: all of them in every non-declared
+   order / a subset of >= 2 in a non-declared order / all in declared order / one; target_param: None / every parameter in a
+   non-declared order / a subset in non-declared order - always with weights that DIFFER BETWEEN THE OBSERVED STATES (per-state
+   vector, or n x p matrix with different columns), including a weight exactly 0 or exactly 1 for one state, on SIR_norm, `products`
+   and `general` random models (<= 3 states) and the time-dependent catalogue; a single observation time, a parameter exactly 0.
+   jtj / hessian / the full_output dictionaries are judged against the direct oracle in which observations, weights and
+   sensitivities are all taken in the NAMED order (`oidx`, `tidx`).  Lean: `jtj_perm_equivariant` (re-ordering the observed states
+   is harmless exactly when the weights are re-ordered along) + `jtj_weights_not_permuted_counterexample`.
+   `timedep` cases: losscommon.TD_CATALOGUE (a parameter acting only during a window of time, see C07) - the reference flow is the
+   HAND-WRITTEN right-hand side integrated piecewise between the non-smooth time points; the second-order right-hand side is
+   compared pointwise at a time INSIDE the window.
 """
 import copy
 import json
@@ -52,18 +63,20 @@ import numpy as np
 
 from .. import exprs as E
 from .. import gen, pymodel
+from . import losscommon as LC
 from .senscommon import close_arr, fmat, fvec, layout, ref_solve, richardson_dir, subst_params, to_float, worst
 
 PROP = "C20"
 LEAN = {"module": "Pygom.Props.C20",
-        "required": ["Pygom.C20.jtj_entry", "Pygom.C20.jtj_symm", "Pygom.C20.jtj_posSemidef", "Pygom.C20.ff_rhs_entry",
+        "required": ["Pygom.C20.jtj_entry", "Pygom.C20.jtj_symm", "Pygom.C20.jtj_posSemidef", "Pygom.C20.jtj_perm_equivariant",
+                     "Pygom.C20.jtj_weights_not_permuted_counterexample", "Pygom.C20.ff_rhs_entry",
                      "Pygom.C20.ff_rhs_is_true", "Pygom.C20.gjs_entry", "Pygom.C20.odeAndForwardForward_ff_block",
                      "Pygom.C20.ffTrue_is_total_derivative_of_sens_rhs", "Pygom.C20.ff_rhs_terms_independent",
                      "Pygom.C20.ff_asFound_entry", "Pygom.C20.ff_rhs_asFound_partial", "Pygom.C20.ff_rhs_asFound_counterexample",
                      "Pygom.C20.hessianH_entry", "Pygom.C20.hessian_is_second_derivative_partial",
                      "Pygom.C20.hessian_asFound_sign_counterexample"]}
-BUDGET = {"quick": {"catalogue": 12, "additive": 8, "general": 12, "products": 10, "one_state": 2},
-          "thorough": {"catalogue": 120, "additive": 120, "general": 200, "products": 120, "one_state": 12}}
+BUDGET = {"quick": {"catalogue": 12, "additive": 8, "general": 12, "products": 10, "one_state": 2, "select": 144, "timedep": 32},
+          "thorough": {"catalogue": 120, "additive": 120, "general": 200, "products": 120, "one_state": 12, "select": 1440, "timedep": 320}}
 RULE = ("SquareLoss on SIR / SEIR / SIR_norm and on random bounded models (2-4 states, 1-3 free parameters; 'additive' models have "
         "no second derivative involving a parameter: free parameters enter as constant birth rates; 'general' ones multiply parameters "
         "by states, by each other through symbolic magnitudes, and divide by 1+b*Y; 'products' ones always contain a rate a*b*X "
@@ -80,15 +93,23 @@ RULE = ("SquareLoss on SIR / SEIR / SIR_norm and on random bounded models (2-4 s
         "another theta, another loss object on the same ode, a deepcopy moved elsewhere; every evaluation is judged against the direct "
         "oracle of the state current at that moment (tags session:agrees:* count them, session:evals=n per case), full_output "
         "dictionaries entry by entry, kept results and caller arrays compared at the end; sens_to_jtj / sens_to_grad are called "
-        "twice on one caller-owned array")
+        "twice on one caller-owned array.  ROUND C: `select` cases (SIR_norm / products / general models with <= 3 states / time-dependent "
+        "catalogue, in turn) run observed states through all-permuted (every non-declared order in turn) / subset-permuted / all-declared / "
+        "one and target_param through None / all-permuted / subset-permuted, weights per-state or n x p with different columns, one weight "
+        "exactly 0 or exactly 1, single observation time (one observed state), a parameter exactly 0 (tags select:*, boundary:*); a quarter "
+        "of them carry a session; `timedep` cases: every (model, window shape) pair of losscommon.TD_CATALOGUE x TD_SHAPES in turn, the "
+        "windowed parameter always free, pointwise right-hand-side comparison at a time inside the window")
 ASSUMPTIONS = ["integrating the sensitivity systems yields the derivatives of the solution (as in C13); scipy integrators within tolerance",
                "the finite-difference Hessian of the reference cost is accurate to ~1e-6 relative (Richardson on 1e-12 solutions); "
                "comparisons use 1e-3 relative",
                "hessian_is_second_derivative_partial takes as hypotheses that the integrated first-order / forward-forward blocks are the "
                "first- / second-order sensitivities of the observed states (variational-equation theorem, not in Mathlib); what is "
                "proved is that the integrated system is the second-order variational equation (ff_rhs_is_true) and the assembly",
+               "time-dependent catalogue: the window's non-smooth time points do not depend on the parameters, so the reference solution at a "
+               "fixed time is smooth in the parameters; pygom integrates across those points with its own error control (trajectory error up to "
+               "~5e-7 observed): the residual entry of the full_output dictionaries is compared at 1e-5 (1+|x|) max(w) for these models",
                "the pointwise right-hand-side oracle trusts sympy.diff / lambdify applied to get_ode_eqn() (C01 ties get_ode_eqn, C03 sympy.diff)"]
-TRUSTED = ["harness generator", "Lean driver JSON codec and list<->function glue", "numpy/scipy float arithmetic within the stated tolerances"]
+TRUSTED = ["harness generator", "hand-written right-hand sides of the time-dependent catalogue (losscommon.TD_CATALOGUE)", "Lean driver JSON codec and list<->function glue", "numpy/scipy float arithmetic within the stated tolerances"]
 
 SIG_MIXED = "hessian:missing-mixed-terms"        # a VIOLATION like any other (the finding was repaired)
 SIG_RHS = "forwardforward:rhs-not-second-order-equation"
@@ -183,6 +204,117 @@ def _obs_setup(r, states, params, case):
     return case
 
 
+def _perms(names):
+    """the orders of all the names other than the declared one"""
+    return [p for p in LC.all_orders(names) if p != list(names)]
+
+
+def _select_setup(r, j, states, params, case):
+    """SELECTIONS IN EVERY ORDER (round c), systematic in j: observed states = all of them in a non-declared order / a subset of
+    >= 2 in a non-declared order / all in declared order or one; target_param = None / every parameter in a non-declared order /
+    a subset in a non-declared order; weights that DIFFER BETWEEN THE OBSERVED STATES (per state, or per observation and state),
+    with the boundary values 0 and 1 for one state.  The oracle applies the weights, the observations and the sensitivities in
+    the NAMED order."""
+    nS, nP = len(states), len(params)
+    om, tm, wm = j % 3, (j // 3) % 3, (j // 9) % 4
+    k = j // 9
+    if om == 0 or nS == 1:
+        pp = _perms(states)
+        obs = pp[k % len(pp)] if pp else list(states)
+    elif om == 1:
+        if nS >= 3:
+            size = 2 if nS == 3 else r.randint(2, nS - 1)
+            subs = [q for q in LC.all_orders(states, size) if [states.index(x) for x in q] != sorted(states.index(x) for x in q)]
+            obs = subs[k % len(subs)]
+        else:
+            obs = [states[k % nS]]
+    else:
+        obs = list(states) if k % 2 == 0 else [states[(k // 2) % nS]]
+    if tm == 0 or nP == 1:
+        tgt = None
+    elif tm == 1:
+        pp = _perms(params)
+        tgt = pp[k % len(pp)]
+    else:
+        size = r.randint(1, nP - 1) if nP > 2 else 1
+        tgt = sorted(r.sample(params, size), key=params.index, reverse=True)
+    nobs = len(obs)
+    n = r.randint(5, 8)
+    bnd = []
+    if nobs == 1 and r.random() < 0.25:
+        n = 1
+        bnd.append("single-observation-time")
+    if nobs > 1:
+        base = r.sample([0.5, 1.5, 2.0, 3.0], nobs) if nobs <= 4 else [r.choice([0.5, 1.5, 2.0, 3.0]) for _ in obs]
+        z = r.randrange(nobs)
+        if wm == 2:
+            base[z] = 0.0
+            bnd.append("weight-zero-for-one-state")
+        elif wm == 3:
+            base[z] = 1.0
+            bnd.append("weight-one-for-one-state")
+        if wm == 1:
+            wk, w = "full", [[v * r.choice([0.5, 1.0, 1.5, 2.0]) for v in base] for _ in range(n)]
+        else:
+            wk, w = "per_state", base
+    else:
+        wk = ["scalar", "full", "none", "scalar"][wm]
+        w = None if wk == "none" else (r.choice([0.5, 2.0, 3.0]) if wk == "scalar" else [r.choice([0.5, 1.0, 1.5, 2.0]) for _ in range(n)])
+    if r.random() < 0.12:
+        z = r.randrange(nP)
+        case["theta"] = list(case["theta"]); case["theta"][z] = 0.0
+        bnd.append("parameter-exactly-zero")
+    case.update({"obs": obs, "target": tgt, "weights": w, "wkind": wk, "n": n, "noise_seed": r.getrandbits(31), "boundary": bnd,
+                 "select": {"obs": ("all-permuted" if nobs == nS and obs != list(states) else "all-declared" if nobs == nS else
+                                    "one" if nobs == 1 else "subset-permuted"),
+                            "target": "none" if tgt is None else ("all-permuted" if len(tgt) == nP else "subset")}})
+    return case
+
+
+def _td_case_c20(r, name, shape):
+    s = LC.gen_setup_td(r, name=name, shape=shape)
+    return {"kind": "td", "td": s["model"], "states": s["states"], "params": s["params"], "theta": list(s["theta_true"]),
+            "x0": list(s["x0"]), "T": round(float(s["times"][-1]), 3)}
+
+
+def _select_case(r, i):
+    src, j = i % 4, i // 4
+    if src == 0:
+        c = {"kind": "catalogue", "name": "SIR_norm", "states": ["S", "I", "R"], "params": ["beta", "gamma"],
+             "theta": [r.uniform(0.8, 2.0), r.uniform(0.2, 0.6)], "x0": [0.9, 0.1, 0.0], "T": 6.0}
+    elif src == 2:
+        names = [k for k in sorted(LC.TD_CATALOGUE) if len(LC.TD_CATALOGUE[k]["states"]) <= 3 or k == "SIR_constN"]
+        c = _td_case_c20(r, names[j % len(names)], r.choice(sorted(LC.TD_SHAPES)))
+    else:
+        fn = _product_model if src == 1 else _general_model
+        for _ in range(20):
+            spec, states, params = fn(r)
+            if len(states) <= 3:
+                break
+        c = {"kind": "products" if src == 1 else "general", "spec": spec, "states": states, "params": params,
+             "theta": [r.randint(5, 60) / 100.0 for _ in params], "x0": [r.randint(5, 20) / 10.0 for _ in states], "T": r.choice([1.0, 2.0])}
+    _select_setup(r, j, c["states"], c["params"], c)
+    c["family"] = "select"
+    if r.random() < 0.25:
+        _session_setup(r, c)
+    return c
+
+
+def _timedep_case(r, i):
+    names = [k for k in sorted(LC.TD_CATALOGUE) if LC.TD_CATALOGUE[k]["windowed"]]
+    shapes = sorted(LC.TD_SHAPES)
+    name = names[i % len(names)]
+    c = _td_case_c20(r, name, shapes[(i // len(names)) % len(shapes)])
+    _obs_setup(r, c["states"], c["params"], c)
+    wp = LC.TD_CATALOGUE[name]["windowed"]
+    if c["target"] is not None and wp not in c["target"]:
+        c["target"] = c["target"][:-1] + [wp]           # the parameter that acts only during the window is always free
+    c["family"] = "timedep"
+    if r.random() < 0.3:
+        _session_setup(r, c)
+    return c
+
+
 EVAL_FNS = ["jtj", "jtj", "jtj_full", "hessian", "hessian_full"]
 THETA_FORMS = ["list", "tuple", "array", "npscalars", "none"]
 IV_ENTRIES = ["costIV", "costIV", "residualIV", "diff_lossIV", "sensitivityIV"]
@@ -268,6 +400,13 @@ def make_cases(rng, tier, budget):
         c = {"kind": "one_state", "spec": spec, "states": ["X"], "params": ["a", "b"], "theta": [r.randint(20, 60) / 100.0, r.randint(20, 60) / 100.0],
              "x0": [r.randint(5, 20) / 10.0], "T": 2.0}
         cases.append(_session_setup(r, _obs_setup(r, ["X"], ["a", "b"], c)))
+    shift = rng.randrange(1000)          # drawn after everything above: the earlier families are the same as before
+    for i in range(budget.get("select", 0)):
+        r = random.Random(rng.getrandbits(64))
+        cases.append(_select_case(r, i + 4 * shift))
+    for i in range(budget.get("timedep", 0)):
+        r = random.Random(rng.getrandbits(64))
+        cases.append(_timedep_case(r, i + shift))
     return cases
 
 
@@ -338,7 +477,9 @@ class SymOracle:
         self.nS, self.nP = len(xs), len(ps)
         tsym = getattr(model, "_t", sympy.Symbol("t"))
         args = xs + [tsym] + ps
-        d = sympy.diff
+        # one variable at a time: sympy 1.14 gets `diff(S*nu*Max(0, t - c), S, nu)` wrong (returns nu*Max(...)) when asked for both
+        # derivatives in one call with pygom's time symbol (declared real=False); the nested form is right (Max(...))
+        d = lambda e, *vs: (sympy.diff(e, vs[0]) if len(vs) == 1 else sympy.diff(sympy.diff(e, vs[0]), vs[1]))
         mk = lambda rows: sympy.lambdify(args, sympy.Matrix(rows), modules="numpy")
         self.f = mk([[e] for e in ode])
         self.J = mk([[d(e, x) for x in xs] for e in ode])
@@ -375,6 +516,8 @@ class SymOracle:
 
 
 def build_model(case):
+    if case["kind"] == "td":
+        return LC.build_td(case["td"])[0]
     if case["kind"] == "catalogue":
         from pygom import common_models
         from pygom.model import ode_utils
@@ -588,6 +731,24 @@ def run_case(case):
     tags += ["kind:" + case["kind"], "nS=%d" % nS, "nT=%d" % nT, "observed=%d" % p_, "order:" + ("ascending" if asc else "non-ascending"),
              "weights:" + case.get("wkind", "?"),
              "target:" + ("all" if tgt is None else "subset")]
+    if case.get("family"):
+        tags.append("family:" + case["family"])
+    tags += ["boundary:" + b for b in case.get("boundary", [])]
+    if p_ == nS and nS > 1:
+        tags.append("select:all-states-observed:" + ("declared-order" if obs == states else "permuted") + (":target-none" if tgt is None else ""))
+    elif p_ > 1 and oidx != sorted(oidx):
+        tags.append("select:subset-of-states:permuted")
+    if tgt is not None and nT == nP and nP > 1:
+        tags.append("select:target_param-all:" + ("declared-order" if tgt == params else "permuted"))
+    td_rhs, td_brk, tq = None, [], 0.0
+    if case["kind"] == "td":
+        # time-dependent catalogue: the reference flow integrates the HAND-WRITTEN right-hand side piecewise between the
+        # non-smooth time points (losscommon.ref_traj_td); the pointwise check of the second-order system is made at a time
+        # inside the window (where the windowed parameter acts)
+        td_rhs = LC.build_td(case["td"])[1]
+        td_brk = LC.td_breaks(case["td"]["shape"], case["td"]["win"])
+        tq = 0.5 * (case["td"]["win"][0] + case["td"]["win"][1]) if case["td"]["shape"] != LC.TD_AUTONOMOUS else 0.0
+        tags += ["td-model:" + case["td"]["name"], "td-shape:" + case["td"]["shape"]]
 
     sess = case.get("session") or {}
     ops = sess.get("ops", [])
@@ -602,6 +763,8 @@ def run_case(case):
         def flow(th_t):
             th = theta_full.copy(); th[tidx] = th_t
             model.parameters = list(th)
+            if td_rhs is not None:
+                return LC.ref_traj_td(td_rhs, list(th), x0_, 0.0, ts, td_brk, lo=None, hi=1e6)
             return ref_solve(lambda t, yy: np.asarray(model.ode(yy, t), float).ravel(), x0_, 0.0, ts)
 
         th_t = theta_full[tidx].copy()
@@ -740,7 +903,10 @@ def run_case(case):
         """the entries of a full_output dictionary that the docstrings name, each against its own reference (direct oracle)"""
         scale_g = float(np.max(np.abs(orc["grad"]))) + 1e-300
         refs = {"grad": (orc["grad"], 1e-5 * scale_g + 1e-6 * (1.0 + orc["cost"])),
-                "resid": (orc["resid"] if p_ > 1 else orc["resid"].ravel(), 1e-7 * (1.0 + float(np.max(np.abs(orc["sol"]))))),
+                # weighted residuals: the error of pygom's own integration (1e-9 on smooth right-hand sides; up to ~5e-7 observed
+                # across the non-smooth time points of the time-dependent catalogue) times the largest weight
+                "resid": (orc["resid"] if p_ > 1 else orc["resid"].ravel(),
+                          (1e-5 if case["kind"] == "td" else 1e-7) * (1.0 + float(np.max(np.abs(orc["sol"])))) * max(1.0, float(np.max(W)))),
                 "JTJ": (orc["JTJ"], tolJ_)}
         if fn == "hessian" and orc.get("H") is not None:
             full = np.asarray(out_.get("H", np.zeros((0, 0))), float)
@@ -821,38 +987,44 @@ def run_case(case):
         # the modelled source has these evaluators: their absence is a broken correspondence, not a crash of the harness
         mism.append({"what": "evaluator missing: " + ",".join(missing),
                      "detail": "the Lean model (Sens.evalForwardForward) mirrors eval_forwardforward WITH the grad_jacobian / grad_grad terms"})
-    if True:
+    # time-dependent models: once at a time inside the window and once outside it (where the windowed parameter's column of
+    # d f / d theta is exactly zero but S and X are not: an evaluator that skips "inactive" parameters is wrong there)
+    tqs = [tq]
+    if case["kind"] == "td" and case["td"]["shape"] != LC.TD_AUTONOMOUS:
+        a_, b_ = case["td"]["win"]
+        tqs.append(0.5 * a_ if case["td"]["shape"].startswith("late") else b_ + 0.5)
+    for tq in tqs:
         rz = random.Random(case["noise_seed"])
         zq = [Fraction(rz.randint(1, 30), 10) for _ in range(nS)] + [Fraction(rz.randint(-20, 20), 8) for _ in range(nS * nP + nS * nP * nP)]
         z = np.array([float(q) for q in zq])
         xq = z[:nS]
         model.parameters = list(theta)
         Fq = lambda arr, r_, c_: [[Fraction(float(v)) for v in row] for row in np.asarray(arr, float).reshape(r_, c_)]
-        fq = [Fraction(float(v)) for v in np.asarray(model.ode(xq, 0.0), float).ravel()]
-        Jq = Fq(model.jacobian(xq, 0.0), nS, nS)
-        Gq = Fq(model.grad(xq, 0.0), nS, nP)
-        Dq = Fq(model.diff_jacobian(xq, 0.0), nS * nS, nS)
+        fq = [Fraction(float(v)) for v in np.asarray(model.ode(xq, tq), float).ravel()]
+        Jq = Fq(model.jacobian(xq, tq), nS, nS)
+        Gq = Fq(model.grad(xq, tq), nS, nP)
+        Dq = Fq(model.diff_jacobian(xq, tq), nS * nS, nS)
         try:
-            real = np.asarray(model.ode_and_forwardforward(z, 0.0), float).ravel()
+            real = np.asarray(model.ode_and_forwardforward(z, tq), float).ravel()
             if not missing:
-                GJq = Fq(model.grad_jacobian(xq, 0.0), nP * nS, nS)
-                GGq = Fq(model.grad_grad(xq, 0.0), nS * nP, nP)
+                GJq = Fq(model.grad_jacobian(xq, tq), nP * nS, nS)
+                GGq = Fq(model.grad_grad(xq, tq), nS * nP, nP)
                 lo = to_float(layout("odeAndForwardForward", nS=nS, nP=nP, f=fvec(fq), J=fmat(Jq), G=fmat(Gq), DJ=fmat(Dq),
                                      GJ=fmat(GJq), GG=fmat(GGq), z=fvec(zq)))
                 sc = 1.0 + float(np.max(np.abs(lo)))
                 if not close_arr(real, lo, 1e-10, 1e-10 * sc):
                     mism.append({"what": "ode_and_forwardforward vs Lean odeAndForwardForward", "detail": worst(real, lo)})
-                mine = coded_ff_rhs(model, nS, nP, z, 0.0)
+                mine = coded_ff_rhs(model, nS, nP, z, tq)
                 if not close_arr(mine, lo, 1e-10, 1e-10 * sc):
                     mism.append({"what": "harness coded_ff_rhs vs Lean odeAndForwardForward", "detail": worst(mine, lo)})
             # the as-found variant of the harness and of the Lean model agree (it is used for classification below)
             lo_af = to_float(layout("odeAndForwardForwardAsFound", nS=nS, nP=nP, f=fvec(fq), J=fmat(Jq), G=fmat(Gq), DJ=fmat(Dq), z=fvec(zq)))
-            mine_af = coded_ff_rhs(model, nS, nP, z, 0.0, as_found=True)
+            mine_af = coded_ff_rhs(model, nS, nP, z, tq, as_found=True)
             if not close_arr(mine_af, lo_af, 1e-10, 1e-10 * (1.0 + float(np.max(np.abs(lo_af))))):
                 mism.append({"what": "harness coded_ff_rhs(as_found) vs Lean odeAndForwardForwardAsFound", "detail": worst(mine_af, lo_af)})
             # independent oracle: derivatives taken here from get_ode_eqn()
             if sym is not None:
-                orc = sym.rhs(theta, z, 0.0)
+                orc = sym.rhs(theta, z, tq)
                 sco = 1.0 + float(np.max(np.abs(orc)))
                 if not close_arr(real, orc, 1e-9, 1e-9 * sco):
                     if close_arr(real, mine_af, 1e-9, 1e-9 * sco):
@@ -862,7 +1034,7 @@ def run_case(case):
                     viol.append({"what": what, "signature": SIG_RHS + (":nS=1" if nS == 1 else ""),
                                  "detail": worst(real, orc) + " terms=%s" % sorted(terms)})
                 else:
-                    tags.append("ff-rhs:agrees-with-independent-derivation")
+                    tags.append("ff-rhs:agrees-with-independent-derivation" + (":outside-the-time-window" if tq != tqs[0] else ""))
         except Exception as exc:
             viol.append({"what": "ode_and_forwardforward raised %s: %s" % (type(exc).__name__, str(exc)[:160]), "signature": "forwardforward:raises", "detail": ""})
 
